@@ -436,7 +436,8 @@ def check_property(prop, tier, seed, jobs=None):
             vacuous.append("%s: no satisfiable cover (canary) - contradictory assumptions?" % r["unit"])
     missing_locked = sorted(n for n in locked if n not in discharged_names
                             and not any(o["name"] == n for _, o in refuted)
-                            and (not only))
+                            and (not only)
+                            and not any(n.startswith("%s/%s/" % (prop, su)) for su in skipped_units))     # units of another tier
     # ---- stand-in (bounded, run-time contracts on the real code)
     standin = {"evaluations": 0, "distinct_nontrivial": 0, "failures": [], "rule": "", "samples": []}
     if hasattr(mod, "standin") and not os.environ.get("PYVC_NO_STANDIN"):
@@ -588,7 +589,7 @@ def check_property(prop, tier, seed, jobs=None):
         print("VIOLATION property=%s replay=%s obligation=%s%s" % (
             prop, _shown(path), name, "" if confirmed else " no-failing-input-found"))
     if os.environ.get("PYVC_WRITE_LOCK") and not violations:
-        lock[prop] = sorted(discharged_names)
+        lock[prop] = sorted(set(discharged_names) | {n for n in locked if any(n.startswith("%s/%s/" % (prop, su)) for su in skipped_units)})
         json.dump(lock, open(lock_path, "w"), indent=0, sort_keys=True)
         print("  lock updated: %d names" % len(discharged_names))
     if violations:
